@@ -352,6 +352,9 @@ class ModelEval(Evaluator):
             if k == "ext":
                 h = self.hooks.get("ext", {}).get(func.data[0])
                 if h is None:
+                    d = self.hooks.get("ext_default")
+                    if d is not None:
+                        return d(func.data[0], args, kwargs)
                     raise Unsupported("library function %s is not modelled" % func.data[0])
                 return h(*args, **kwargs)
             if k == "pkg":
